@@ -392,12 +392,15 @@ class ProtocolMixin(object):
 
     def sort_fields(self, cls=None, items=None):
         logger.debug("%r sortcache size: %d", self, len(self._sortcache))
-        retval = self._sortcache.get(cls, None)
-        if retval is not None:
-            return retval
+        # the flat type info of a class is rebuilt when fields are added to it,
+        # which is when what is cached here goes stale.
+        fti = cls.get_flat_type_info(cls)
+        cached = self._sortcache.get(cls, None)
+        if cached is not None and cached[0] is fti:
+            return cached[1]
 
         if items is None:
-            items = list(cls.get_flat_type_info(cls).items())
+            items = list(fti.items())
 
         indexes = {}
         for k, v in items:
@@ -414,7 +417,7 @@ class ProtocolMixin(object):
                 indexes[k] = len(indexes)
 
         items.sort(key=lambda x: indexes[x[0]])
-        self._sortcache[cls] = items
+        self._sortcache[cls] = fti, items
 
         return items
 
